@@ -293,8 +293,11 @@ static std::string do_sweep(const Args &a)
     return o.str();
 }
 
+static std::string do_bigfind(size_t n);
+
 static std::string dispatch(const std::string &op, const Args &a)
 {
+    if (op == "bigfind") return do_bigfind(size_t(u64(a[0])));
     if (op == "cmp" || op == "buf") {
         const std::string &t = a[0];
         if (op == "cmp") {
@@ -319,6 +322,34 @@ static std::string dispatch(const std::string &op, const Args &a)
     if (op == "sweep") return do_sweep(a);
     fprintf(stderr, "h_cmpfind: unknown op %s\n", op.c_str());
     exit(2);
+}
+
+// searching with operands of megabytes on a thread whose stack is small (256 KiB): the stack the search needs may not
+// grow with the size of its operands.  The expected index is known by construction.
+struct BigArgs { size_t n; bool ok; };
+static void *bigfind_thread(void *p)
+{
+    BigArgs *a = static_cast<BigArgs *>(p);
+    std::string needle(a->n, 'q');
+    for (size_t i = 0; i < needle.size(); i += 7) needle[i] = 'Z';
+    std::string hay = std::string(1000, 'q') + "-" + needle + "-tail";
+    for (char &c : hay) if (c == 'Z') c = 'z';
+    ST::string H = ST::string::from_validated(hay.data(), hay.size());
+    ST::string N = ST::string::from_validated(needle.data(), needle.size());
+    a->ok = H.find(N, ST::case_insensitive) == 1001 && H.find(N) == -1 && H.find_last(N, ST::case_insensitive) == 1001
+            && H.contains(N, ST::case_insensitive) && H.compare_i(H) == 0 && H.replace(N, "r", ST::case_insensitive).size() == 1000 + 1 + 1 + 5;
+    return nullptr;
+}
+static std::string do_bigfind(size_t n)
+{
+    BigArgs a{n, false};
+    pthread_attr_t at;
+    pthread_attr_init(&at);
+    pthread_attr_setstacksize(&at, 256 * 1024);
+    pthread_t t;
+    if (pthread_create(&t, &at, bigfind_thread, &a) != 0) return "bigfind thread-failed";
+    pthread_join(t, nullptr);
+    return a.ok ? "bigfind ok" : "bigfind wrong";
 }
 
 static std::string cmpfind_probe()
